@@ -210,6 +210,75 @@ theorem player_time_prefix_sums (t : Rat) (es : List Ev) (k : Nat) (e : Ev) (ds 
           rw [ih (t + d) k ds' hk hrest]
           simp [Rat.add_assoc]
 
+/-! ## Node ids are fresh -/
+
+/-- The node ids of the `/s_new` commands in a list of messages. -/
+def sNewIds (ms : List Msg) : List Arg :=
+  ms.filterMap fun m => if m.cmd == "/s_new" then m.args[1]? else none
+
+theorem playNote_ids (w : World) (t : Rat) (e : Ev) :
+    (sNewIds (playNote w t e).1 = [] ∧ (playNote w t e).2.1.nextId = w.nextId) ∨
+    (sNewIds (playNote w t e).1 = [.n (.q w.nextId)] ∧ (playNote w t e).2.1.nextId = w.nextId + 1) := by
+  unfold playNote
+  cases notePrep w e with
+  | none => exact Or.inl ⟨rfl, rfl⟩
+  | some r =>
+    obtain ⟨inst, hasGate, params, action, group⟩ := r
+    refine Or.inr ?_
+    simp only
+    split
+    · cases e.sustain <;> simp [sNewIds]
+    · simp [sNewIds]
+
+theorem sNewIds_append (a b : List Msg) : sNewIds (a ++ b) = sNewIds a ++ sNewIds b := by
+  simp [sNewIds, List.filterMap_append]
+
+/-- Every synth a player creates gets a fresh node id: the ids of its `/s_new` commands are the
+    consecutive ids from the allocator's position on, each used once. -/
+theorem player_ids_fresh (w : World) (t : Rat) (es : List Ev) :
+    sNewIds (playAll w t es).1 =
+      (List.range' w.nextId ((playAll w t es).2.1.nextId - w.nextId)).map (fun (i : Nat) => Arg.n (.q (i : Rat))) ∧
+    w.nextId ≤ (playAll w t es).2.1.nextId := by
+  induction es generalizing w t with
+  | nil => simp [playAll, sNewIds]
+  | cons e es ih =>
+    by_cases hr : e.isRest = true
+    · cases hd : e.delta with
+      | none => simp [playAll, hr, hd, sNewIds]
+      | some d => simp only [playAll, hr, hd, if_true]; exact ih w (t + d)
+    · simp only [playAll, hr]
+      rcases hn : playNote w t e with ⟨m1, w1, raised⟩
+      have hids := playNote_ids w t e
+      rw [hn] at hids
+      simp only at hids
+      cases raised with
+      | true =>
+        simp only
+        rcases hids with ⟨h1, h2⟩ | ⟨h1, h2⟩
+        · simp [h1, h2]
+        · simp [h1, h2, List.range'_one]
+      | false =>
+        cases hd : e.delta with
+        | none =>
+          simp only
+          rcases hids with ⟨h1, h2⟩ | ⟨h1, h2⟩
+          · simp [h1, h2]
+          · simp [h1, h2, List.range'_one]
+        | some d =>
+          obtain ⟨ih1, ih2⟩ := ih w1 (t + d)
+          rcases hpa : playAll w1 (t + d) es with ⟨ms, w', t', died⟩
+          rw [hpa] at ih1 ih2
+          simp only at ih1 ih2
+          simp only [Bool.false_eq_true, if_false, hpa]
+          rcases hids with ⟨h1, h2⟩ | ⟨h1, h2⟩
+          · rw [sNewIds_append, h1, ih1, h2]
+            exact ⟨by simp, by omega⟩
+          · rw [sNewIds_append, h1, ih1, h2]
+            refine ⟨?_, by omega⟩
+            have : w'.nextId - w.nextId = (w'.nextId - (w.nextId + 1)) + 1 := by omega
+            rw [this, List.range'_succ]
+            simp
+
 /-! ## Parallel and duration-limiting patterns -/
 
 /-- MAIN (Ppar): whatever the other children do, the events of child `i` appear in the merged
